@@ -37,8 +37,8 @@ from specs.valence import check_valence
 from props import C01 as base
 
 ID = 'C10'
-LEVEL = 'exploration'
-P_TARGETS = []
+LEVEL = 'other'
+P_TARGETS = ['cgsmiles.resolve:compatible']
 BUDGET = {'quick': 33.0, 'thorough': 420.0}
 CHUNK = 50
 BOUNDS = {
@@ -255,7 +255,9 @@ def check_case(case):
     vp = check_valence(fine)
     if vp:
         fail('valence-' + vp[0][0], '%s -> %s' % (text, [p[2] for p in vp[:3]]))
-    # (b) metamorphic: the disjoint description
+    # (b) metamorphic: the disjoint description (not repeated when (a) already failed: it would restate the same fault)
+    if any(f['kind'] in ('wrong-molecule', 'wrong-hydrogens') for f in fails):
+        return Outcome(text, True, fails)
     dcase = dict(case)
     dcase['shares'] = []
     dcase['tri'] = False
